@@ -413,6 +413,45 @@ fn check_flat_sliver(i: u64, r: &mut Report) {
     r.nontrivial();
 }
 
+/// The scanline iterator is an Iterator: whatever way a caller drives it - nth, skip, step_by, last, count, by_ref().take -
+/// each scanline it yields is the one repeated next() yields at that position (row, span, fragment count, first and last
+/// fragment bit for bit). Trapezoids over a small lattice, handed to scan() directly.
+fn check_scan_adaptors(i: u64, r: &mut Report) {
+    use re::render::raster::scan;
+    r.eval();
+    let ys = [0.0f32, 0.5, 1.25, 3.0, 7.5, 12.75];
+    let xs = [0.0f32, 1.5, 4.25, 9.0];
+    let (y0, y1) = (ys[(i % 6) as usize], ys[(i / 6 % 6) as usize]);
+    if !(y0 < y1) { return; }
+    let (l0, r0, l1, r1) = (xs[(i / 36 % 4) as usize], xs[(i / 144 % 4) as usize], xs[(i / 576 % 4) as usize], xs[(i / 2304 % 4) as usize]);
+    if l0 > r0 || l1 > r1 { return; }
+    let case = || obj! {"kind" => "scan-adaptors", "i" => i};
+    let tag = format!("y {y0}..{y1}|left {l0}->{l1}|right {r0}->{r1}");
+    let mk = |x: f32, y: f32, z: f32, a: f32| (pt3(x, y, z), a * z);
+    let (a, b, c, d) = (mk(l0, y0, 1.0, 0.0), mk(l1, y1, 0.5, 1.0), mk(r0, y0, 0.25, 0.5), mk(r1, y1, 1.0, 0.25));
+    type Sum = (usize, usize, usize, usize, Option<([u32; 3], u32)>, Option<([u32; 3], u32)>);
+    let sum = |mut sl: re::render::raster::Scanline<f32>| -> Sum { let fr: Vec<([u32; 3], u32)> = sl.fragments().take(64).map(|f| (f.pos.0.map(f32::to_bits), f.var.to_bits())).collect(); (sl.y, sl.xs.start, sl.xs.end, fr.len(), fr.first().copied(), fr.last().copied()) };
+    let fresh = || scan(y0..y1, &a..&b, &c..&d);
+    let all: Vec<Sum> = match caught(|| fresh().map(sum).collect()) { Ok(v) => v, Err(p) => { r.violation(format!("scan-adaptors|panic|{tag}"), p, case()); return; } };
+    let n = all.len();
+    let mut bad: Option<String> = None;
+    let res = caught(|| {
+        let mut bad: Option<String> = None;
+        for k in 0..n + 2 { let g = fresh().nth(k).map(sum); if g != all.get(k).cloned() { bad.get_or_insert(format!("nth({k}) = {g:?}, next() x {} = {:?}", k + 1, all.get(k))); } }
+        for k in 0..n + 2 { let g: Vec<Sum> = fresh().skip(k).map(sum).collect(); if g[..] != all[k.min(n)..] { bad.get_or_insert(format!("skip({k}) yields {} scanlines starting {:?}, expected {} starting {:?}", g.len(), g.first(), n - k.min(n), all.get(k))); } }
+        for st in 1..=3usize { let g: Vec<Sum> = fresh().step_by(st).map(sum).collect(); let w: Vec<Sum> = all.iter().step_by(st).cloned().collect(); if g != w { bad.get_or_insert(format!("step_by({st}) yields {:?}, expected {:?}", g.iter().map(|s| (s.0, s.1, s.2)).collect::<Vec<_>>(), w.iter().map(|s| (s.0, s.1, s.2)).collect::<Vec<_>>())); } }
+        if fresh().count() != n { bad.get_or_insert(format!("count() = {}, next() yields {n}", fresh().count())); }
+        if fresh().last().map(sum) != all.last().cloned() { bad.get_or_insert("last() differs from the last scanline of repeated next()".into()); }
+        { let mut it = fresh(); let head: Vec<Sum> = it.by_ref().take(2).map(sum).collect(); let second = it.nth(1).map(sum); if head[..] != all[..2.min(n)] || second != all.get(3).cloned() { bad.get_or_insert(format!("take(2) then nth(1) = {second:?}, expected {:?}", all.get(3))); } }
+        let (lo, hi) = fresh().size_hint();
+        if lo > n || hi.map_or(false, |h| h < n) { bad.get_or_insert(format!("size_hint() = ({lo}, {hi:?}) but {n} scanlines are yielded")); }
+        bad
+    });
+    match res { Ok(b) => bad = b, Err(p) => { r.violation(format!("scan-adaptors|panic|{tag}"), p, case()); return; } }
+    if let Some(what) = bad { r.violation(format!("scan-adaptors|{}|{tag}", what.split('(').next().unwrap_or("")), format!("scan({tag}): {what}"), case()); return; }
+    if n >= 2 { r.nontrivial(); }
+}
+
 fn tri_of(pts: &[(f32, f32)], i: u64, off: usize, per_vertex: bool) -> [(f32, f32); 3] {
     let n = pts.len() as u64;
     let idx = [(i % n) as usize, (i / n % n) as usize, (i / n / n) as usize];
@@ -464,6 +503,7 @@ fn main() {
     let cfg = Cfg::from_args(|s| if s == "cover" { "C04".into() } else { "C05".into() });
     if cfg.replay.is_some() {
         replay_main(&cfg, |c, r| {
+            if c.get("kind").and_then(|j| j.as_str()) == Some("scan-adaptors") { check_scan_adaptors(c.get("i").unwrap().as_u64().unwrap(), r); return; }
             if c.get("kind").and_then(|j| j.as_str()) == Some("far") { check_far(c.get("i").unwrap().as_u64().unwrap(), r); return; }
             if c.get("kind").and_then(|j| j.as_str()) == Some("fsliver") { check_flat_sliver(c.get("i").unwrap().as_u64().unwrap(), r); return; }
             if c.get("kind").and_then(|j| j.as_str()) == Some("asliver") { check_apex_sliver(c.get("i").unwrap().as_u64().unwrap(), r); return; }
@@ -511,6 +551,7 @@ fn main() {
     }
     rep.sample(0, || obj! {"family" => fams[0].0.clone(), "triangle" => vec![0.0f32, 0.0, 4.0, 0.0, 2.0, 1.0]});
     rep.sample(1, || obj! {"family" => fams[2].0.clone(), "triangle_vertex_example" => vec![1.6f32, 2.325]});
+    if !is_cover { rep.merge(par_range(&cfg, 6 * 6 * 256, check_scan_adaptors)); }
     if !is_cover { rep.merge(par_range(&cfg, 21870 * 3, check_vertical_sliver)); rep.merge(par_range(&cfg, 8748 * 3, check_apex_sliver)); rep.merge(par_range(&cfg, 972 * 6, check_flat_sliver)); }
     if is_cover { rep.merge(par_range(&cfg, 48, check_far)); }
     if is_cover {
